@@ -67,6 +67,8 @@ where
     ) -> Result<LocalChannelId, Error> {
         let id = {
             // NB: This cannot reasonably overflow.
+            #[cfg(aranya_core_verif)]
+            super::verif_sites::at(super::verif_sites::SITE_SHM_NEXT_ID_FETCH_ADD);
             let next = self.inner.shm().next_chan_id.fetch_add(1, Ordering::SeqCst);
             LocalChannelId::new(next)
         };
@@ -75,6 +77,8 @@ where
             let off = self.inner.write_off(self.inner.shm())?;
             // Load state after loading the write offset because
             // of borrowing rules.
+            #[cfg(aranya_core_verif)]
+            super::verif_sites::at(super::verif_sites::SITE_SHM_WRITE_SIDE_LOCK);
             let mut side = self.inner.shm().side(off)?.lock().assume("poisoned")?;
 
             if side.len >= side.cap {
@@ -105,6 +109,8 @@ where
             // Swap the pointers: the reader will now see the
             // updated list.
             let off = self.inner.swap_offsets(self.inner.shm(), write_off)?;
+            #[cfg(aranya_core_verif)]
+            super::verif_sites::at(super::verif_sites::SITE_SHM_READ_SIDE_LOCK);
             let mut side = self.inner.shm().side(off)?.lock().assume("poisoned")?;
 
             ShmChan::<CS>::init(side.raw_at(idx)?, id, label_id, peer_id, &keys, &self.rng);
@@ -121,6 +127,8 @@ where
             off
         };
 
+        #[cfg(aranya_core_verif)]
+        super::verif_sites::at(super::verif_sites::SITE_SHM_WRITE_OFF_STORE);
         self.inner
             .shm()
             .write_off
@@ -134,6 +142,8 @@ where
             let off = self.inner.write_off(self.inner.shm())?;
             // Load state after loading the write offset because
             // borrowing rules.
+            #[cfg(aranya_core_verif)]
+            super::verif_sites::at(super::verif_sites::SITE_SHM_WRITE_SIDE_LOCK);
             let mut side = self.inner.shm().side(off)?.lock().assume("poisoned")?;
             if side.len == 0 {
                 return Ok(());
@@ -166,6 +176,8 @@ where
             // Swap the pointers: the reader will now see the
             // updated list.
             let off = self.inner.swap_offsets(self.inner.shm(), write_off)?;
+            #[cfg(aranya_core_verif)]
+            super::verif_sites::at(super::verif_sites::SITE_SHM_READ_SIDE_LOCK);
             let mut side = self.inner.shm().side(off)?.lock().assume("poisoned")?;
 
             // As a precaution, update the generation before we
@@ -180,6 +192,8 @@ where
             off
         };
 
+        #[cfg(aranya_core_verif)]
+        super::verif_sites::at(super::verif_sites::SITE_SHM_WRITE_OFF_STORE);
         self.inner
             .shm()
             .write_off
@@ -193,6 +207,8 @@ where
 
         let write_off = {
             let off = self.inner.write_off(shm)?;
+            #[cfg(aranya_core_verif)]
+            super::verif_sites::at(super::verif_sites::SITE_SHM_WRITE_SIDE_LOCK);
             shm.side(off)?.lock().assume("poisoned")?.clear();
             off
         };
@@ -201,10 +217,14 @@ where
             // Swap the pointers: the reader will now see the
             // updated list.
             let off = self.inner.swap_offsets(shm, write_off)?;
+            #[cfg(aranya_core_verif)]
+            super::verif_sites::at(super::verif_sites::SITE_SHM_READ_SIDE_LOCK);
             shm.side(off)?.lock().assume("poisoned")?.clear();
             off
         };
 
+        #[cfg(aranya_core_verif)]
+        super::verif_sites::at(super::verif_sites::SITE_SHM_WRITE_OFF_STORE);
         shm.write_off.store(read_off.into(), Ordering::SeqCst);
 
         Ok(())
@@ -217,6 +237,8 @@ where
             let off = self.inner.write_off(shm)?;
             // Load state after loading the write offset because
             // borrowing rules.
+            #[cfg(aranya_core_verif)]
+            super::verif_sites::at(super::verif_sites::SITE_SHM_WRITE_SIDE_LOCK);
             let mut side = shm.side(off)?.lock().assume("poisoned")?;
             if side.len == 0 {
                 return Ok(());
@@ -229,6 +251,8 @@ where
             // Swap the pointers: the reader will now see the
             // updated list.
             let off = self.inner.swap_offsets(shm, write_off)?;
+            #[cfg(aranya_core_verif)]
+            super::verif_sites::at(super::verif_sites::SITE_SHM_READ_SIDE_LOCK);
             let mut side = shm.side(off)?.lock().assume("poisoned")?;
 
             // It's only possible to get here if `side.len > 0`.
@@ -239,6 +263,8 @@ where
             off
         };
 
+        #[cfg(aranya_core_verif)]
+        super::verif_sites::at(super::verif_sites::SITE_SHM_WRITE_OFF_STORE);
         shm.write_off.store(read_off.into(), Ordering::SeqCst);
 
         Ok(())
@@ -246,6 +272,8 @@ where
 
     fn exists(&self, id: LocalChannelId) -> Result<bool, Self::Error> {
         let mutex = self.inner.load_write_list()?;
+        #[cfg(aranya_core_verif)]
+        super::verif_sites::at(super::verif_sites::SITE_SHM_WRITE_SIDE_LOCK);
         let list = mutex.lock().assume("poisoned")?;
         list.exists(id, None, Op::Any)
     }
